@@ -197,6 +197,18 @@ SNIPPETS = textwrap.dedent('''
         b[k % n].append(7)
         return [len(x) for x in a] + [len(x) for x in b]
 
+    def s_lexsort(offs, files):
+        order = np.lexsort((np.array(offs), np.array(files)))
+        return [int(i) for i in order]
+
+    def s_empty_object(n, k):
+        x = np.empty(n, dtype=object)
+        x[[0, k % n]] = "Cell"
+        return [str(v) for v in x]
+
+    def s_itemsize(which):
+        return [np.array([], dtype=["float64", "float32", "int"][which % 3]).itemsize]
+
     def s_dict_get_truthy(names, want):
         d = {n: i for i, n in enumerate(names)}
         out = []
@@ -326,6 +338,13 @@ def rnd_inputs(name, rng):
         return [[(R(1, 3), R(1, 2), R(1, 2)) for _ in range(R(1, 6))]]
     if name == "s_list_alias":
         return [R(1, 4), R(0, 9)]
+    if name == "s_lexsort":
+        n = R(1, 5)
+        return [[R(0, 3) for _ in range(n)], [rng.choice(["Cell_D_00000", "Cell_D_00001", "Cell_D_00002"]) for _ in range(n)]]
+    if name == "s_empty_object":
+        return [R(1, 4), R(0, 9)]
+    if name == "s_itemsize":
+        return [R(0, 5)]
     if name == "s_dict_get_truthy":
         names = rng.sample(["alpha", "beta", "gamma", "delta"], R(1, 4))
         return [names, rng.sample(["alpha", "beta", "gamma", "delta", "zzz"], R(0, 4))]
